@@ -44,6 +44,22 @@ Theorem C12_refused_iff : forall c m t,
 Proof. exact rollback_refused_iff. Qed.
 Print Assumptions C12_refused_iff.
 
+(** The full ledger (state ledger + chain ledger behind ledger.Ledger.Rollback): the chain half is not
+    modelled; the predicate [full_frame_g] is evaluated on implementation traces (checks/C12.py, leg
+    "full_ledger").  What a pass means: after a refused rollback the chain half (head, persisted head,
+    blockfile length, every block lookup) is what it was; after an accepted one all three heights are the
+    target. *)
+Theorem C12_full_refused_frame_pred : forall h r t t' c t'' prev i,
+  full_frame_g (Rollback h :: t) (ORes r :: t') (c :: t'') prev i = None -> r <> R_ok -> c = prev.
+Proof. exact full_frame_refused_step. Qed.
+Print Assumptions C12_full_refused_frame_pred.
+
+Theorem C12_full_accepted_pred : forall h t t' c t'' prev i,
+  full_frame_g (Rollback h :: t) (ORes R_ok :: t') (c :: t'') prev i = None ->
+  exists rest, c = h :: h :: h :: rest.
+Proof. exact full_frame_accepted_step. Qed.
+Print Assumptions C12_full_accepted_pred.
+
 (** C12_reexec_same_partial: that re-executing the same blocks after a rollback reproduces the same
     roots is shown on a concrete history ([C12_example_reexec]) and follows in general from
     C10_root_function_of_changes once both executions reach states with the same contributions; the
